@@ -6,7 +6,9 @@ from collections import OrderedDict as odict
 ID = "C06"
 RULE = ("(ACL text(s), vendor, tree, fatal, exclusive): ACL rule trees over the grammar (literal words, *, ~, nesting<=3, "
         "%global, %cant_delete=0/1, %prio, 1-3 generator texts merged with _combine_acl_text's %generator_names tagging); "
-        "trees instantiate the rules' rows (plus uncovered rows, rows in the vendor's negated form, deeper rows); "
+        "trees instantiate the rules' rows (plus uncovered rows, rows in the vendor's negated form, deeper rows); plus the "
+        "SMALL ACL SPACE (52 one-rule ACL texts and all 2704 ordered pairs of them as two generators x 191 small trees x "
+        "{plain, strict, exclusive} = 1579188 cases) exhaustively in the thorough tier, a seed-chosen slice in the quick tier; "
         "non-trivial = ACL has >=2 rules and the tree >=3 rows of which >=1 passes and >=1 is dropped or errors; "
         "distinct = distinct case")
 TRUSTED_BASE = [
@@ -38,7 +40,55 @@ def setup_worker():
 
 def shards(tier, seed):
     n = 400 if tier == "quick" else 50000
-    return [dict(seed=seed * 1000 + i, n=n) for i in range(16)]
+    out = [dict(seed=seed * 1000 + i, n=n) for i in range(16)]
+    # the small ACL space (see small_acl_cases), exhaustively in the thorough tier, a seed-chosen slice in the quick tier
+    if tier == "quick":
+        out += [dict(kind="small", part=(seed * 4 + i) % 1024, parts=1024) for i in range(4)]
+    else:
+        out += [dict(kind="small", part=i, parts=64) for i in range(64)]
+    return out
+
+
+def small_acl_texts():
+    """one-rule ACL texts: row in {a *, a 1, a ~, ~} x parameter in {-, %global, %cant_delete=1, %prio=1} x child rule in
+    {-, x *, x 1, ~ %global} (no child below a %global rule)"""
+    out = []
+    for row in ("a *", "a 1", "a ~", "~"):
+        for par in ("", "  %global", "  %cant_delete=1", "  %prio=1"):
+            for child in (None, "x *", "x 1", "~  %global"):
+                if par == "  %global" and child is not None:
+                    continue
+                out.append(row + par + "\n" + ("    " + child + "\n" if child else ""))
+    return out
+
+
+def small_acl_trees():
+    """the 104 small configurations of rbgen plus, for those with a row `a 1`, the same tree with that row in negated form"""
+    from harness import rbgen
+    out = []
+    for t in rbgen.small_configs():
+        out.append((t, None))
+        if any(r == "a 1" for r, _ in t):
+            out.append((t, "a 1"))
+    return out
+
+
+def small_acl_cases(part, parts):
+    """every single ACL text and every ordered pair of them (two generators) x every small tree x {plain, strict,
+    exclusive}, huawei / cisco alternating"""
+    texts = small_acl_texts()
+    acls = [[a] for a in texts] + [[a, b] for a in texts for b in texts]
+    trees = small_acl_trees()
+    k = 0
+    for ai, acl in enumerate(acls):
+        for ti, (t, neg) in enumerate(trees):
+            for mode in range(3):
+                if k % parts == part:
+                    vendor, pre = (("huawei", "undo"), ("cisco", "no"))[(ai + ti) % 2]
+                    tree = [[(pre + " " + r) if r == neg else r, ([] if r == neg else [list(x) for x in ch])] for r, ch in t]
+                    yield dict(vendor=vendor, texts=list(acl), tree=tree, fatal=mode == 1, exclusive=mode == 2,
+                               tagged=len(acl) > 1)
+                k += 1
 
 
 # ------------------------------------------------------------------ generators
@@ -118,6 +168,9 @@ def gen_tree(rng, rule_rows, pre, depth=0):
 
 
 def gen(desc):
+    if desc.get("kind") == "small":
+        yield from small_acl_cases(desc["part"], desc["parts"])
+        return
     rng = random.Random(desc["seed"])
     for _ in range(desc["n"]):
         vendor, pre, _jun = rng.choice(VENDORS)
